@@ -78,6 +78,9 @@ def run(case, ctx, rng):
                 ctx.eq('dec(enc)==M', call(lambda: new().dec(v, C)), M, **det)
                 o = new()
                 ctx.eq('enc==M^KS', call(lambda: (o.enc(v, M), o.enc(v, M))[1]), want, second_call=True, **det)
+                o = new()
+                for ln in (n // 3, n, min(5, n), n, max(0, n - 1)):
+                    ctx.eq('same-object:enc==M^KS', call(lambda: o.enc(v, M[:ln])), want[:ln], length=ln, **det)
                 for cut in sorted({0, 1, n // 2, max(0, n - 1), 64 if n > 64 else 0}):
                     ctx.eq('prefix', call(lambda: new().enc(v, M[:cut])), want[:cut], cut=cut, **det)
         else:
@@ -114,7 +117,13 @@ def run(case, ctx, rng):
         want = bytes(a ^ b for a, b in zip(M, rs.rc4(key, n)))
         def run_():
             o = RC4(key)
-            return b''.join(o.enc(M[pts[i]:pts[i + 1]]) for i in range(len(pts) - 1))
+            out = []
+            for i in range(len(pts) - 1):
+                if case['empty'] and i == 1:
+                    call(o.enc, 'text, not bytes')          # a refused piece must not advance the stream
+                    call(o.enc, None)
+                out.append(o.enc(M[pts[i]:pts[i + 1]]))
+            return b''.join(out)
         got = call(run_)
         ctx.eq('rc4:pieces==stream', got, want, key=key, M=M, cuts=cuts)
         ctx.eq('rc4:pieces==oneshot', got, call(lambda: RC4(key).enc(M)), key=key, cuts=cuts)
